@@ -164,6 +164,14 @@ Definition step_spec (ς : sstate V) (o : op) : option (sstate V * outcome) :=
     end
   end.
 
+(* the tensor carries a lazy transpose that was taken in the vector-axes zone (a vector-shaped
+   tensor with non-unit strides: AP.T rewrites its strides): reads and writes through it go astray *)
+Definition after_vector_T (d : dense) : bool :=
+  match d_old d with
+  | Some o => is_vector (shp o) && negb (allones (str o))
+  | None => false
+  end.
+
 (* the guard class of a step in a model state (GOk = inside the domain of the theorems) *)
 Definition guard_op (σ : store V) (o : op) : gclass :=
   let on t f := match get_t V σ t with Some d => f d | None => GOther end in
@@ -172,7 +180,10 @@ Definition guard_op (σ : store V) (o : op) : gclass :=
   | OSlice t sl _ => on t (fun d => match guard_read d with
                                     | GFlagUnsound | GOk => guard_slice (d_ap d) (d_len d) sl
                                     | g => g end)
-  | OAt t _ | OSetAt t _ _ => on t (fun d => match guard_read d with GFlagUnsound => GOk | g => g end)
+  | OAt t _ | OSetAt t _ _ | OMemset t _ | OZero t =>
+    on t (fun d => match guard_read d with
+                   | GFlagUnsound | GOk => if after_vector_T d then GVectorAxes else GOk
+                   | g => g end)
   | OMaterialize t _ | OClone t => on t guard_read
   | OT t axes => on t (fun d => guard_T d axes)
   | OTranspose t =>
@@ -185,7 +196,7 @@ Definition guard_op (σ : store V) (o : op) : gclass :=
   | OReshape t dims _ =>
     on t (fun d => if negb (d_view d) && (size (shp (d_ap d)) =? size dims) && negb (d_len d =? size dims) && negb (is_scalar dims)
                    then GLateRefusal else guard_transpose d)
-  | OCopy dt st => on dt (fun d => on st (fun s => guard_copy d s))
+  | OCopy dt st => on dt (fun d => on st (fun s => if after_vector_T d || after_vector_T s then GVectorAxes else guard_copy d s))
   | OSafeT t axes => on t (fun d => guard_safeT d axes)
   | OApiTranspose t axes =>
     on t (fun d => match guard_safeT d axes with
